@@ -53,6 +53,10 @@ KINDS = {
     "ff-gophermap": [("file", "ffm/gophermap", b"info with \x0c form feed\n0Doc \x1c with fs\trel.txt\ninfo \xc2\x85 nel and \xe2\x80\xa8 ls\n1V\x0bT\t..\n"), ("file", "ffm/rel.txt", b"rel\n")],
     "ff-names": [("file", "f.txt", b"file f\n"), ("file", ".names", b"Path=./f.txt\nName=Form\x0cFeed Name\nAbstract=abs \x1d gs\nNumb=3\n")],
     "ff-sidecar": [("file", "f.txt", b"file f\n"), ("file", "f.txt.abstract", b"line one\x0cstill line one\nline two \x0b vt\n\x1eline three\n")],
+    # members stored without a usable date (all-zero DOS date and time, as some archivers write) or with an impossible one
+    "zero-date": [("file", "old.txt", b"old\n", (1980, 0, 0, 0, 0, 0)), ("file", "sub/older.txt", b"older\n", (1980, 0, 0, 0, 0, 0)), ("file", "odd.txt", b"odd\n", (2107, 15, 31, 31, 63, 62))],
+    # archives with nothing in them, or nothing that resolves
+    "empty": [], "only-dangling": [("link", "dang.txt", "nowhere.txt")], "only-cycle": [("link", "c1", "c2"), ("link", "c2", "c1")],
     # links resolved through other links, to the archive root, and with a trailing slash
     "link-chain": [("file", "real/f.txt", b"real f\n"), ("link", "alink.txt", "zdir/f.txt"), ("link", "zdir", "real"), ("link", "sub/through.txt", "../zdir/f.txt"), ("link", "sub/zz", "../zdir")],
     "link-root": [("file", "f.txt", b"file f\n"), ("file", "sub/g.txt", b"file g\n"), ("link", "toroot", "."), ("link", "sub/up", ".."), ("link", "sub/here", "."), ("link", "abs-slash", "/sub/"), ("link", "rel-slash", "sub/")],
@@ -76,7 +80,7 @@ def build_zip(entries):
                 continue
             seen.add(e[1])
             if e[0] == "file":
-                zi = zipfile.ZipInfo(e[1], date_time=(2004, 1, 1, 0, 0, 0))
+                zi = zipfile.ZipInfo(e[1], date_time=e[3] if len(e) > 3 else (2004, 1, 1, 0, 0, 0))
                 zi.external_attr = 0o100644 << 16
                 z.writestr(zi, e[2])
             elif e[0] == "rawfile":
@@ -355,9 +359,14 @@ def replay(case):
 def run(ck):
     k = 3 if ck.tier == "quick" else 4
     items = []
+    # kinds that put something on the same entries (f.txt and the listing of the top directory) can interact;
+    # the quick tier takes triples among those only, the thorough tier all triples
+    cluster = {k2 for k2, es in KINDS.items() if any(e[1] in ("f.txt", ".names", ".links", ".cap/f.txt", "f.txt.abstract") or (e[0] == "link" and "/" not in e[1]) for e in es)}
     for n in range(1, k + 1):
         for kinds in itertools.combinations(sorted(KINDS), n):
             if n == 4 and not (kinds[0] in ("abstract", "cap", "cycle")):
+                continue
+            if n == 3 and ck.tier == "quick" and not all(x in cluster for x in kinds):
                 continue
             items.append(("archive", kinds))
     items += [("special", "plain"), ("special", "shadow"), ("escapes", "-")]
@@ -366,7 +375,7 @@ def run(ck):
 
         random.Random(ck.seed).shuffle(items)
     ck.pmap(_shard, core.chunks(items, core.NPROC * 4))
-    ck.rule = ("archives = every subset of <= %d of %d member kinds, built as /T (extracted) and /T.zip; every member path, every directory, link-through paths and 3 missing names x %d protocol forms on both, compared after removing the '.zip' prefix and timestamps; "
+    ck.rule = ("archives = every subset of <= %d of %d member kinds (quick: pairs of all kinds, triples among the kinds that decorate the same entries), built as /T (extracted) and /T.zip; every member path, every directory, link-through paths and 3 missing names x %d protocol forms on both, compared after removing the '.zip' prefix and timestamps; "
                "plus archives with mailbox/Maildir/script/PYG-shaped members (with and without same-named real objects in the working directory) and links leaving the archive; distinct = (kind, verdict, size, first member kind)" % (k, len(KINDS), len(FORMS)))
     ck.bounds = {"subset_size": k, "member_kinds": len(KINDS)}
     ck.assumptions = ["an absolute link target inside an archive is relative to the archive root (that is how the extracted twin is built)",
